@@ -302,7 +302,10 @@ def tier(argv_tier=None):
 
 
 # ----------------------------------------------------------------------------- replay workers
-def run_worker(script, args, inp=None, timeout=3600, env=None):
+PY_SCIPY = "/opt/veriftools/pyvenv/bin/python"     # the tooling interpreter: numpy + scipy, autograd from /repo through PYTHONPATH
+
+
+def run_worker(script, args, inp=None, timeout=3600, env=None, py=None):
     """Run harness/<script> under /venv/bin/python with autograd imported from /repo's working tree."""
     e = dict(os.environ)
     e["PYTHONPATH"] = REPO + os.pathsep + os.path.join(ROOT, "harness")
@@ -313,9 +316,9 @@ def run_worker(script, args, inp=None, timeout=3600, env=None):
     e.setdefault("OPENBLAS_NUM_THREADS", "1")
     if env:
         e.update(env)
-    cmd = [PY, os.path.join(ROOT, "harness", script)]
+    cmd = [py or PY, os.path.join(ROOT, "harness", script)]
     cov = os.environ.get("VERIF_COVERAGE_DIR")
-    if cov:
+    if cov and not py:
         # diagnostic only (tools/impl_coverage.sh): which lines/branches of autograd the spec-driven replays execute
         os.makedirs(cov, exist_ok=True)
         cmd = [PY, "-m", "coverage", "run", "--branch", "--parallel-mode", "--source=" + os.path.join(REPO, "autograd"),
@@ -348,7 +351,7 @@ def chunks(xs, n):
 
 
 # ----------------------------------------------------------------------------- parallel replay / validation
-def parallel_replay(script, cases, nproc=12, tag="replay", timeout=3600, extra_args=()):
+def parallel_replay(script, cases, nproc=12, tag="replay", timeout=3600, extra_args=(), py=None):
     """Split cases over nproc worker processes running harness/<script> <in.json> <out.ndjson>; return list of traces."""
     import concurrent.futures as cf
     d = subdir(tag + "-%d" % (int(time.time() * 1000) % 10**9))
@@ -361,7 +364,7 @@ def parallel_replay(script, cases, nproc=12, tag="replay", timeout=3600, extra_a
         jobs.append((fin, fout))
 
     def one(job):
-        p = run_worker(script, [job[0], job[1]] + list(extra_args), timeout=timeout)
+        p = run_worker(script, [job[0], job[1]] + list(extra_args), timeout=timeout, py=py)
         if p.returncode != 0:
             raise MachineryError("worker %s failed (%d): %s" % (script, p.returncode, p.stderr[-3000:]))
         return job[1]
